@@ -5,6 +5,7 @@ import (
 	"go/ast"
 	"go/token"
 	"go/types"
+	"golang.org/x/tools/go/packages"
 	"strings"
 
 	"golang.org/x/tools/go/ssa"
@@ -332,6 +333,13 @@ func ruleLimitComparisons(c *core.Ctx, rule string) {
 				// one more element) bounds another quantity than its siblings do
 				addend := func(e ast.Expr) string {
 					out := ""
+					// a local variable stands for the expression it was defined with
+					// (length := HeaderSize + m.Header.Size; if length > MaxPayloadSize)
+					if id, ok := e.(*ast.Ident); ok {
+						if def := definingExpr(p, f, id); def != nil {
+							e = def
+						}
+					}
 					ast.Inspect(e, func(m ast.Node) bool {
 						if b, ok := m.(*ast.BinaryExpr); ok && (b.Op == token.ADD || b.Op == token.SUB) {
 							for _, side := range []ast.Expr{b.X, b.Y} {
@@ -376,4 +384,39 @@ func ruleLimitComparisons(c *core.Ctx, rule string) {
 	if n < 5 {
 		c.Undecided(rule, "limit comparisons", token.NoPos, fmt.Sprintf("only %d comparisons with a size limit found", n))
 	}
+}
+
+// definingExpr: the right-hand side of the single short declaration (x := e)
+// or var declaration that defines the local variable id refers to, if that
+// variable is never assigned again; nil otherwise.
+func definingExpr(p *packages.Package, file *ast.File, id *ast.Ident) ast.Expr {
+	obj := p.TypesInfo.Uses[id]
+	if obj == nil {
+		return nil
+	}
+	var def ast.Expr
+	n := 0
+	ast.Inspect(file, func(nd ast.Node) bool {
+		as, ok := nd.(*ast.AssignStmt)
+		if !ok {
+			return true
+		}
+		for i, l := range as.Lhs {
+			li, ok := l.(*ast.Ident)
+			if !ok {
+				continue
+			}
+			if p.TypesInfo.Defs[li] == obj || p.TypesInfo.Uses[li] == obj {
+				n++
+				if len(as.Rhs) == len(as.Lhs) {
+					def = as.Rhs[i]
+				}
+			}
+		}
+		return true
+	})
+	if n != 1 {
+		return nil
+	}
+	return def
 }
